@@ -148,6 +148,11 @@ func (e *Engine) autoInlinable0(fn *ssa.Function, depth int) bool {
 				}
 				callee := x.Call.StaticCallee()
 				if callee == nil {
+					// a method of an interface-typed parameter: the caller may know the
+					// dynamic type (resolved at the call; unknown calls havoc the heap)
+					if _, isParam := x.Call.Value.(*ssa.Parameter); isParam && x.Call.IsInvoke() {
+						continue
+					}
 					return false
 				}
 				if _, ok := e.contracts[fnKey(callee)]; ok {
@@ -179,7 +184,24 @@ func (c *Ctx) execCall(fr *Frame, st *State, call *ssa.CallCommon, site ssa.Valu
 	if b, ok := call.Value.(*ssa.Builtin); ok {
 		return c.execBuiltin(fr, st, b, call, args, rt, pos)
 	}
+	var callee *ssa.Function
+	devirt := false
 	if call.IsInvoke() {
+		recv := c.val(fr, st, call.Value)
+		// the dynamic type is known on this path (the interface value was built
+		// from a concrete value in this function or an inlined caller): the
+		// method is resolved statically when it is a small leaf or pure
+		if recv.Dyn != nil && c.eng.invokeContract(call) == nil {
+			if m := c.eng.prog.LookupMethod(recv.Dyn.T, call.Method.Pkg(), call.Method.Name()); m != nil && len(m.Blocks) > 0 {
+				mct := c.eng.contracts[fnKey(m)]
+				if pol := c.callPolicy(m, mct, fr.depth); pol == polInline || pol == polPure {
+					callee, devirt = m, true
+					args = append([]Val{recv.Dyn.V}, args...)
+				}
+			}
+		}
+	}
+	if call.IsInvoke() && !devirt {
 		recv := c.val(fr, st, call.Value)
 		if ct := c.eng.invokeContract(call); ct != nil {
 			all := append([]Val{recv}, args...)
@@ -190,7 +212,9 @@ func (c *Ctx) execCall(fr *Frame, st *State, call *ssa.CallCommon, site ssa.Valu
 		c.havocAll(st, true)
 		return c.havocVal(rt, "ext"), true
 	}
-	callee := call.StaticCallee()
+	if !devirt {
+		callee = call.StaticCallee()
+	}
 	var clo []Val
 	if callee == nil {
 		fv := c.val(fr, st, call.Value)
